@@ -32,7 +32,8 @@ Definition cancel_write_midway (s : storage) (r : rec) : storage :=
 (* a blob creation dropped after the id was taken: the id is consumed, no blob is installed *)
 Definition burn_id (s : storage) : storage :=
   {| s_active := s_active s; s_closed := s_closed s; s_next := s_next s + 1; s_corrupted := s_corrupted s;
-     s_alive := s_alive s; s_dump_req := s_dump_req s; s_aged := s_aged s; s_open := s_open s; s_f2 := s_f2 s |}.
+     s_alive := s_alive s; s_dump_req := s_dump_req s; s_aged := s_aged s; s_open := s_open s; s_f2 := s_f2 s;
+     s_bad := s_bad s; s_quar := s_quar s |}.
 
 (* `f` applied to the last occupied slot (the one HierarchicalFilters::pop / pop_last would vacate), in place *)
 Fixpoint map_last_occupied (f : blob -> blob) (l : list (option blob)) : list (option blob) :=
